@@ -332,9 +332,42 @@ class Facts:
                     k += 1
                 b.name = "%s#%d" % (b.name, k)
             self.bodies[b.name] = b
+        self.aliases = self._apply_reference_names()
         self.adts = {norm_name(a["name"]): a for a in self.j["adts"]}
         self.items = self.j["items"]
         self.logos = {e["enum"].split("::", 1)[1] if "::" in e["enum"] else e["enum"]: e for e in self.j["logos"]}
+
+    def _apply_reference_names(self):
+        """Parameters are identified by position.  The rule texts spell a parameter with the name it
+        has in the reference tree (engine/reference_names.json, generated by engine/mkreference.py);
+        when a function keeps its parameter list (same count, same types) but a parameter was merely
+        renamed, the reference name is used as an alias so that a rename alone never changes a verdict.
+        No alias is applied if the new name set overlaps the old one at other positions (a reorder)."""
+        ref_path = os.path.join(os.path.dirname(os.path.dirname(os.path.dirname(os.path.abspath(__file__)))), "reference_names.json")
+        applied = []
+        if not os.path.exists(ref_path):
+            return applied
+        with open(ref_path) as fh:
+            ref = json.load(fh)
+        for name, rec in ref.get("params", {}).items():
+            b = self.bodies.get(name)
+            if b is None or b.kind == "Closure" or b.arg_count != len(rec):
+                continue
+            cur = [(b.debug_names.get(i + 1), b.locals[i + 1]["ty"]) for i in range(b.arg_count)]
+            if any(c[1] != r[1] for c, r in zip(cur, rec)):
+                continue
+            cur_names = [c[0] for c in cur]
+            rec_names = [r[0] for r in rec]
+            if cur_names == rec_names:
+                continue
+            moved = any(c is not None and c != r and c in rec_names for c, r in zip(cur_names, rec_names))
+            if moved:
+                continue
+            for i, (c, r) in enumerate(zip(cur_names, rec_names)):
+                if c != r and r is not None:
+                    b.debug_names[i + 1] = r
+                    applied.append((name, c, r))
+        return applied
 
     def hand_bodies(self):
         return [b for b in self.all_bodies if not b.derived]
